@@ -57,7 +57,7 @@ def rust_module(idx, d, skel):
     w('use std::panic::{catch_unwind, AssertUnwindSafe};')
     w('use state_machines::state_machine;')
     w('use state_machines::core::{AroundOutcome, AroundStage, TransitionError, TransitionErrorKind};')
-    w('state_machine! {\n    %s\n}' % smgen.dsl_defn(d))
+    w('state_machine! {\n    %s\n}' % smgen.dsl_defn(d, vary=True))
     # hooks
     if concrete:
         w('impl<S> %s<S> {' % name)
